@@ -61,6 +61,13 @@ class DGen(solvecheck.Gen):
         blocks = [{"name": "c%d" % i, "stmts": self.stmts(fs, 1, 1, 2)} for i in range(r.choice([1, 1, 2]))]
         dn = ["d%d" % i for i in range(r.randint(1, 3))]
         blocks += [self.dyn_block(fs, n) for n in dn]
+        if r.random() < 0.4:
+            # an always-on class block that refers to a dynamic block of the same object; its name sorts before or
+            # after the dynamic block's (the blocks of a class are elaborated in name order)
+            ref = r.choice(dn)
+            body = [{"k": "dyncall", "name": ref}] if r.random() < 0.6 else \
+                [{"k": "if", "c": self.boolean(fs, 1), "t": [{"k": "expr", "e": {"k": "dyn", "name": ref}}], "elifs": [], "else": None}]
+            blocks.append({"name": r.choice(["b9", "e0"]), "stmts": body})
         ninst = r.choice([1, 2, 2, 3])
         calls = []
         for _ in range(r.randint(2, 5)):
